@@ -1684,7 +1684,11 @@ func (pc *PeerConnection) startRTPReceivers(remoteDesc *SessionDescription, curr
 				Direction: RTPTransceiverDirectionSendrecv,
 			})
 			if err != nil {
-				pc.log.Warnf("Could not add transceiver for remote SSRC %d: %s", incomingTrack.ssrcs[0], err)
+				// a simulcast (rid based) track has no SSRC yet
+				pc.log.Warnf(
+					"Could not add transceiver for remote track (SSRCs %v, RIDs %v): %s",
+					incomingTrack.ssrcs, incomingTrack.rids, err,
+				)
 
 				continue
 			}
